@@ -13,6 +13,7 @@ open GeomVerif
 inductive Op (π : Type) where
   | push (l : Layout) (p : π)
   | rev | clone | swap | num | coords
+  | fork      -- other := receiver.Clone(): both values live on and are pushed to independently
   | part (i : Nat)
   deriving Repr
 
@@ -52,6 +53,7 @@ def step (m : Machine σ π ρ κ) (st : σ × σ) : Op π → (σ × σ) × Ob 
       | .panic s => (st, .rev (.panic s))
   | .clone => (st, .unit)
   | .swap => ((st.2, st.1), .unit)
+  | .fork => ((st.1, st.1), .unit)
   | .num => (st, .num (m.num st.1))
   | .coords => (st, .coords (m.coords st.1))
   | .part i => (st, .part (m.part st.1 i))
